@@ -148,3 +148,26 @@ package processors
 //@ loop 1 invariant [rest-untouched] forall(k, int, implies(_done <= k && k < len(properties), properties[k].Injects == old(properties[k].Injects)), properties[k])
 //@ loop 1 invariant [others-untouched] forall(k, int, implies(0 <= k && k < len(properties) && !ByName(properties[k]) && !ByPtrType(properties[k]) && !ByIfaceType(properties[k]), properties[k].Injects == old(properties[k].Injects)), properties[k]) && forall(p, *component_definition.Property, implies(forall(k, int, implies(0 <= k && k < len(properties), properties[k] != p)), p.Injects == old(p.Injects)))
 //@ loop 1 invariant [old-lists-kept] forall(k, int, forall(i, int, implies(0 <= k && k < len(properties) && 0 <= i && i < len(old(properties[k].Injects)), oldat(old(properties[k].Injects), i) == old(properties[k].Injects)[i])))
+
+//@ spec func FuncPoint(p *component_definition.Property) bool = p.Tag == definition.FuncTag
+//@ spec func FuncByPtr(p *component_definition.Property) bool = FuncPoint(p) && (KindOf(p) == 22 || (KindOf(p) == 23 && RElemType(p.Type).Kind() == 22))
+//@ spec func FuncByIface(p *component_definition.Property) bool = FuncPoint(p) && !FuncByPtr(p) && (KindOf(p) == 20 || (KindOf(p) == 23 && RElemType(p.Type).Kind() == 20))
+
+//@ func (*dependencyFunctionAwarePostProcessors).PostProcessProperties
+//@ property C06 C09
+//@ requires [registry-set] d.Registry != nil && DefInv(d.Registry)
+//@ requires [properties-wellformed] forall(k, int, implies(0 <= k && k < len(properties), PointOK(properties[k]) && properties[k].args != nil), properties[k])
+//@ requires [properties-distinct] forall(j, int, forall(k, int, implies(0 <= j && j < k && k < len(properties), properties[j] != properties[k])))
+//@ assigns anyfield(component_definition.Property, Injects), MetasPos
+//@ ensures [no-error] result1 == nil
+//@ ensures [func-candidates-sound] forall(k, int, forall(i, int, implies(0 <= k && k < len(properties) && (FuncByPtr(properties[k]) || FuncByIface(properties[k])) && len(old(properties[k].Injects)) <= i && i < len(properties[k].Injects), MetaOK(properties[k].Injects[i]) && d.Registry.DefDom[properties[k].Injects[i].Name()] && d.Registry.Def[properties[k].Injects[i].Name()] == properties[k].Injects[i] && RHasMethod(RTypeOf(properties[k].Injects[i].Value), properties[k].TagVal) && ite(FuncByPtr(properties[k]), RTypeOf(properties[k].Injects[i].Value) == TargetT(properties[k]), RImplements(RTypeOf(properties[k].Injects[i].Value), TargetT(properties[k]))))))
+//@ ensures [earlier-candidates-kept] forall(k, int, forall(i, int, implies(0 <= k && k < len(properties) && 0 <= i && i < len(old(properties[k].Injects)), len(properties[k].Injects) >= len(old(properties[k].Injects)) && properties[k].Injects[i] == oldat(old(properties[k].Injects), i))))
+//@ ensures [others-untouched] forall(k, int, implies(0 <= k && k < len(properties) && !FuncByPtr(properties[k]) && !FuncByIface(properties[k]), properties[k].Injects == old(properties[k].Injects)), properties[k]) && forall(p, *component_definition.Property, implies(forall(k, int, implies(0 <= k && k < len(properties), properties[k] != p)), p.Injects == old(p.Injects)))
+//@ loop 1 invariant [bounds] 0 <= _done && _done <= len(properties) && DefInv(d.Registry)
+//@ loop 1 invariant [inputs-kept] forall(k, int, implies(0 <= k && k < len(properties), properties[k] == oldat(properties, k)))
+//@ loop 1 invariant [func-candidates-sound] forall(k, int, forall(i, int, implies(0 <= k && k < _done && (FuncByPtr(properties[k]) || FuncByIface(properties[k])) && len(old(properties[k].Injects)) <= i && i < len(properties[k].Injects), MetaOK(properties[k].Injects[i]) && d.Registry.DefDom[properties[k].Injects[i].Name()] && d.Registry.Def[properties[k].Injects[i].Name()] == properties[k].Injects[i] && RHasMethod(RTypeOf(properties[k].Injects[i].Value), properties[k].TagVal) && ite(FuncByPtr(properties[k]), RTypeOf(properties[k].Injects[i].Value) == TargetT(properties[k]), RImplements(RTypeOf(properties[k].Injects[i].Value), TargetT(properties[k]))))))
+//@ loop 1 invariant [earlier-candidates-kept] forall(k, int, forall(i, int, implies(0 <= k && k < _done && 0 <= i && i < len(old(properties[k].Injects)), len(properties[k].Injects) >= len(old(properties[k].Injects)) && properties[k].Injects[i] == oldat(old(properties[k].Injects), i))))
+//@ loop 1 invariant [rest-untouched] forall(k, int, implies(_done <= k && k < len(properties), properties[k].Injects == old(properties[k].Injects)), properties[k])
+//@ loop 1 invariant [others-untouched] forall(k, int, implies(0 <= k && k < len(properties) && !FuncByPtr(properties[k]) && !FuncByIface(properties[k]), properties[k].Injects == old(properties[k].Injects)), properties[k]) && forall(p, *component_definition.Property, implies(forall(k, int, implies(0 <= k && k < len(properties), properties[k] != p)), p.Injects == old(p.Injects)))
+//@ loop 1 invariant [old-lists-kept] forall(k, int, forall(i, int, implies(0 <= k && k < len(properties) && 0 <= i && i < len(old(properties[k].Injects)), oldat(old(properties[k].Injects), i) == old(properties[k].Injects)[i])))
+//@ loop 2 invariant [options-are-method-predicates] 0 <= _done && _done <= len(args) && forall(j, int, implies(0 <= j && j < len(options), options[j] != nil && forall(m, *component_definition.Meta, implies(callpre(options[j], m) && call(options[j], m), RHasMethod(RTypeOf(m.Value), prop.TagVal)) && callpre(options[j], m) == MetaOK(m)))) && (backing(options) == 0 || backing(options) > old(top()))
